@@ -57,6 +57,8 @@ def check(ctx):
     repo = ctx.repo
     P = repo.cls(PARAM, "Parameter")
     C = repo.cls(PARAM, "CompositeParameter")
+    ctx.rule("R16.12", "evaluating, comparing or printing a parameter does not modify it: no method other than the constructors / __setstate__ "
+                       "writes into self.kwargs (directly or through a local that may be the same dict)", 1)
     ctx.rule("R16.11", "leaf equality compares the functions as wholes (code objects or the functions themselves), the keyword names and the keyword values", 3)
     ctx.rule("R16.10", "clearing the cache of a composite clears both operands whenever they are parameters (all four operand-kind combinations)", 4)
     ctx.rule("R16.9", "pickling / copying a parameter leaves the parameter itself unchanged (no write to self or to its live __dict__)", 1)
@@ -226,6 +228,7 @@ def check(ctx):
            construct="__call__ cache protocol", loc=loc(fc, fc.node), message=f"hash args {call_args}, evaluate args {ev_args}",
            consequence="the value stored under a key was computed for other arguments")
     leaf_equality(ctx, P)
+    kwargs_untouched(ctx, P)
     clear_reaches_operands(ctx, C)
     from ..effects import serialisers_pure
     serialisers_pure(ctx, "R16.9", "after a composite parameter has been pickled once (tdgl.solve pickles the applied vector potential into the "
@@ -481,3 +484,29 @@ def leaf_equality(ctx, P):
     ctx.ob("R16.11", "every keyword value is compared", not wrong_vals, detail=wrong_vals, where=f.fq,
            construct="kwargs value comparison in Parameter.__eq__", message=f"Parameter.__eq__ no longer compares the keyword values one by one: {wrong_vals}",
            consequence="parameters with different keyword values compare equal")
+
+
+def kwargs_untouched(ctx, P):
+    """R16.12: flow-ordered may-alias analysis (pvs/alias.py) of every Parameter method with self.kwargs as the protected storage."""
+    from ..alias import analyse
+    bad = []
+    n = 0
+    for name, f in P.methods.items():
+        if name in ("__init__", "__setstate__"):
+            continue
+        n += 1
+        res = analyse(f.node, roots_params=False, root_expr=lambda e: "self.kwargs" if norm(e) == "self.kwargs" else None)
+        for node, lab, what in res.writes:
+            bad.append(f"{f.qual} L{node.lineno}: {what}")
+        for c in own_nodes(f.node):
+            if isinstance(c, ast.Call) and isinstance(c.func, ast.Attribute) and norm(c.func.value) == "self.kwargs" \
+                    and c.func.attr in ("update", "setdefault", "pop", "popitem", "clear", "__setitem__", "__delitem__"):
+                bad.append(f"{f.qual} L{c.lineno}: {norm(c)[:50]}")
+            if isinstance(c, ast.Delete) and any("self.kwargs" in norm(t) for t in c.targets):
+                bad.append(f"{f.qual} L{c.lineno}: {norm(c)[:50]}")
+    if n < 6:
+        raise AnalysisError(f"only {n} Parameter methods examined")
+    ctx.ob("R16.12", f"{n} Parameter methods leave self.kwargs as it was", not bad, detail=bad, where=P.fq, construct="stores into Parameter.kwargs",
+           message=f"a method of Parameter writes into the keyword arguments the parameter was created with: {bad[:2]}",
+           consequence="evaluating a parameter changes it: equality of leaves and composites (which compares kwargs) depends on the evaluation "
+                       "history instead of the structure, and a later call sees the arguments of an earlier one")
